@@ -1,6 +1,7 @@
 SPECIFICATION Spec
 CONSTANT Tier = "quick"
 CONSTANT Seed = 1
+CONSTANT Only = "all"
 INVARIANT Emit
 INVARIANT CheckedAgrees
 INVARIANT DivIdentity
